@@ -290,3 +290,132 @@ def r09f(R):
                init.module, n.value.args[0]) is clock_iface]
     R.check(init, 'Machine.__init__: self.<clock> = provide(Clock)', len(got) == 1,
             'the VM no longer obtains its own clock in its constructor')
+
+
+def _requests(A, m):
+    """[(cfg node, receiver text)] of the request_stop() calls of method m"""
+    out = []
+    for n in A.cfg(m).nodes:
+        for c in n.calls():
+            if isinstance(c.func, ast.Attribute) and c.func.attr == 'request_stop':
+                out.append((n, norm(c.func.value)))
+    return out
+
+
+@rule('R09.g', ('C09', 'C20'), 'each stop entry point sends the request to '
+      'exactly the job it names', floor=7,
+      decides='stop, stop-current and stop-all act on exactly the named, the '
+              'current and all jobs; stop-all leaves the queue empty')
+def r09g(R):
+    A = R.A
+    jc = A.cls(JOBS, 'JobControl')
+    # --- stop_job(name)
+    sj = jc.methods['stop_job']
+    cfg = A.cfg(sj)
+    pname = sj.params[1]
+    reqs = _requests(A, sj)
+    active = [(n, r) for n, r in reqs if r == 'self._active_agent']
+    backgr = [(n, r) for n, r in reqs if r.startswith('self._background[')]
+    a_eq = tuple(sorted((pname, 'self._active_agent.name')))
+    want_active = {('self._active_agent is None', False),
+                   ('%s == %s' % a_eq, True)}
+    want_bg = {('%s in self._background' % pname, True)}
+    ok = bool(active) and all(want_active <= A.path_facts(sj, n) for n, _r in active)
+    R.check(sj, 'active agent asked to stop iff it exists and has that name',
+            ok, 'stop_job sends the request to the active job under another '
+            'condition than "there is one and it has the given name": a stop '
+            'for one script stops another, or raises on an idle controller')
+    ok = bool(backgr) and all(
+        want_bg <= A.path_facts(sj, n) and r == 'self._background[%s]' % pname
+        for n, r in backgr)
+    R.check(sj, 'background agent of that name asked to stop iff it is registered',
+            ok, 'stop_job does not address the background job registered '
+            'under the given name (wrong key, or not tested for presence)')
+    # every way through "it has that name" / "it is registered" sends it
+    for label, nodes, atom in (
+            ('active', [n for n, _r in active], '%s == %s' % a_eq),
+            ('background', [n for n, _r in backgr],
+             '%s in self._background' % pname)):
+        tests = [t for t in cfg.nodes if t.kind == 'cond'
+                 and A.canonical_atom(t.ast)[0] == atom]
+        p = None
+        good = bool(tests and nodes)
+        for t in tests:
+            _text, pol = A.canonical_atom(t.ast)
+            lab = pol                # the edge on which the atom holds
+            starts = [m for m, lb in t.succs if lb is lab]
+            p = cfg.find_path(starts, lambda n: n in (cfg.exit, cfg.raise_exit),
+                              avoid=nodes)
+            if p is not None:
+                good = False
+        R.check(sj, 'the %s job that matches is always sent the request' % label,
+                good, 'stop_job can find the named %s job and return without '
+                'asking it to stop' % label, path=path_text(p) if p else None)
+    # --- stop_current
+    sc = jc.methods['stop_current']
+    reqs = _requests(A, sc)
+    ok = bool(reqs) and all(
+        r == 'self._active_agent'
+        and ('self._active_agent is None', False) in A.path_facts(sc, n)
+        for n, r in reqs)
+    ccfg = A.cfg(sc)
+    run_tests = [t for t in ccfg.nodes if t.kind == 'cond'
+                 and 'is_running' in norm(t.ast)]
+    p = None
+    if ok and run_tests:
+        starts = [m for t in run_tests for m, lb in t.succs if lb is True]
+        p = ccfg.find_path(starts, lambda n: n in (ccfg.exit, ccfg.raise_exit),
+                           avoid=[n for n, _r in reqs])
+        ok = p is None
+    R.check(sc, 'current job asked to stop iff there is one (and it runs)', ok,
+            'stop_current does not send the request to the active job exactly '
+            'when there is one', path=path_text(p) if p else None)
+    # --- stop_background: every background agent
+    sb = jc.methods['stop_background']
+    bcfg = A.cfg(sb)
+    reqs = _requests(A, sb)
+    loops = [n for n in bcfg.nodes if n.kind == 'for']
+    ok = bool(reqs and loops)
+    if ok:
+        lp = loops[0]
+        body = [m for m, lab in lp.succs if lab is True]
+        skip = bcfg.find_path(body, lambda n: n is lp, avoid=[n for n, _r in reqs])
+        var = norm(lp.ast.target)
+        # the collection walked is the background table (or a copy of it)
+        src = norm(lp.ast.iter)
+        names = set(x.id for x in ast.walk(lp.ast.iter) if isinstance(x, ast.Name))
+        from_table = '_background' in src or any(
+            isinstance(s, ast.Assign) and norm(s.targets[0]) in names
+            and ('_background' in norm(s.value) or 'get_background' in norm(s.value))
+            for s in walk_own(sb.node))
+        # nothing skips the loop when there are agents
+        none_tests = [t for t in bcfg.nodes if t.kind == 'cond'
+                      and A.canonical_atom(t.ast)[0].endswith(' is None')]
+        entered = all(('%s' % A.canonical_atom(t.ast)[0], False) in
+                      A.path_facts(sb, lp) for t in none_tests)
+        ok = skip is None and all(r == var for _n, r in reqs) and from_table \
+            and entered
+    R.check(sb, 'every background agent is asked to stop', ok,
+            'stop_background does not send the request to every registered '
+            'background job')
+    # --- clear_queue empties the queue
+    cq = jc.methods['clear_queue']
+    qcfg = A.cfg(cq)
+    clears = [n for n in qcfg.nodes for c in n.calls()
+              if isinstance(c.func, ast.Attribute) and c.func.attr == 'clear'
+              and self_attr(c.func.value) == '_queue']
+    clears += [n for n in qcfg.nodes if n.kind == 'stmt' and isinstance(n.ast, ast.Assign)
+               and any(self_attr(t) == '_queue' for t in n.ast.targets)]
+    from .c08 import guarded_fields, held_nodes
+    _jc, _fields, lock = guarded_fields(A)
+    hn = held_nodes(A, cq, lock)
+    acq = [n for n in qcfg.nodes if n.kind == 'cond' and 'acquire' in norm(n.ast)]
+    p = None
+    ok = bool(clears and acq)
+    if ok:
+        starts = [m for t in acq for m, lb in t.succs if lb is True]
+        p = qcfg.find_path(starts, lambda n: n is qcfg.exit, avoid=clears)
+        ok = p is None and all(n.id in hn for n in clears)
+    R.check(cq, 'clear_queue empties the queue (under the lock)', ok,
+            'clear_queue can return, lock taken, without emptying the queue: '
+            'after stop-all the next queued script still starts')
